@@ -241,13 +241,6 @@ theorem sameVal_iff (a b : K) : sameVal a b = true ↔ a = b := by
     exact le_antisymm (not_lt.mp h.2) (not_lt.mp h.1)
   · intro h; subst h; simp
 
-theorem truncDown_floorOf (s : Style) (tr : K → Int) (x e : K) :
-    truncDown s false tr x e =
-      if ((floorOf tr x : Int) : K) = x then floorOf tr x else
-      if eqS s (((floorOf tr x + 1 : Int) : Int) : K) x e then floorOf tr x + 1 else floorOf tr x := by
-  have h : ∀ a : K, (sameVal a x = true) = (a = x) := fun a => propext (sameVal_iff _ _)
-  simp [truncDown, floorOf, h]
-
 /-- closed form of `trunc<downward>`: an integer is returned unchanged; otherwise the integer above if the argument
     is equal to it within epsilon, else the integer below -/
 theorem truncDown_eq (s : Style) {tr : K → Int} (htr : IsTrunc tr) (x e : K) (l : Int)
@@ -255,7 +248,33 @@ theorem truncDown_eq (s : Style) {tr : K → Int} (htr : IsTrunc tr) (x e : K) (
     truncDown s false tr x e = if (l : K) = x then l else if eqS s ((l : K) + 1) x e then l + 1 else l := by
   have hb := floorOf_spec htr x
   have hlo : floorOf tr x = l := floor_unique hb.1 hb.2 hl hu
-  rw [truncDown_floorOf, hlo]; push_cast; rfl
+  have hsv : ∀ a : K, (sameVal a x = true) = (a = x) := fun a => propext (sameVal_iff _ _)
+  unfold floorOf at hlo
+  unfold truncDown
+  simp only [Bool.false_and, Bool.false_eq_true, if_false]
+  by_cases hg : ((tr x : Int) : K) > x
+  · simp only [hg, if_true] at hlo
+    have ht : tr x = l + 1 := by omega
+    -- the conversion lies above the argument: the argument is negative and strictly above the integer below it
+    have hlt : (l : K) < x := by
+      rcases le_total 0 x with h0 | h0
+      · exact absurd hg (not_lt.mpr ((htr x).1 h0).1)
+      · have := ((htr x).2 h0).2
+        rw [ht] at this; push_cast at this; linarith
+    have hne : ¬ (l : K) = x := ne_of_lt hlt
+    have hg' : (l : K) + 1 > x := hu
+    rw [ht]
+    simp only [add_sub_cancel_right]
+    push_cast
+    simp only [hg', decide_true, Bool.true_and, if_true, hsv, hne, if_false]
+    by_cases hE : eqS s ((l : K) + 1) x e = true
+    · simp only [hE, if_true]
+    · simp only [hE, Bool.false_eq_true, if_false]
+  · simp only [hg, if_false] at hlo
+    have hg' : ¬ (l : K) > x := by rw [← hlo]; exact hg
+    rw [hlo]
+    simp only [hg', decide_false, Bool.false_and, Bool.false_eq_true, if_false, hsv]
+    push_cast; rfl
 
 theorem truncUp_eq (s : Style) {tr : K → Int} (htr : IsTrunc tr) (x e : K) (l : Int) (h0 : 0 ≤ e)
     (hl : (l : K) ≤ x) (hu : x < (l : K) + 1) :
